@@ -218,6 +218,12 @@ class UnifiedRTFEncoder(EncodingStrategy):
         for page in pages:
             rows = page.data.height
             page.data = processed_df.slice(current_idx, rows)
+            # Row-varying attributes are given for the whole table: hand each page
+            # the rows it renders so a cell keeps the format of its original row.
+            if page.table_attrs is not None and current_idx > 0:
+                page.table_attrs = self._slice_attrs_rows(
+                    page.table_attrs, current_idx, rows
+                )
             current_idx += rows
 
         # 2. Re-implementation of group_by logic
@@ -242,6 +248,22 @@ class UnifiedRTFEncoder(EncodingStrategy):
                 rows = p.data.height
                 p.data = restored.slice(curr, rows)
                 curr += rows
+
+    @staticmethod
+    def _slice_attrs_rows(attrs, start: int, rows: int):
+        """Return a copy of table attributes whose matrices start at row `start`."""
+        updates = {}
+        for name in type(attrs).model_fields:
+            value = getattr(attrs, name)
+            if (
+                isinstance(value, list)
+                and len(value) > 1
+                and all(isinstance(row, list) for row in value)
+            ):
+                updates[name] = [
+                    value[row % len(value)] for row in range(start, start + rows)
+                ]
+        return attrs.model_copy(update=updates) if updates else attrs
 
     def _encode_figure_only(self, document: RTFDocument):
         """Encode a figure-only document."""
